@@ -48,8 +48,7 @@ BASE_MODELS = [(r'Endpoint::peer_id$', m_own), (r'Vec::is_empty$', m_is_empty), 
 
 
 def cm_state(p):
-    f = struct_fields(CM, 'ConnectionManager')
-    cm = struct_sym('cm', 'ConnectionManager', f, {
+    cm = struct_sym_deep('cm', 'ConnectionManager', CM, 'ConnectionManager', {
         'pending_dials': Sym('pending_dials', 'HashMap<PeerId, tokio::sync::oneshot::Receiver<Result<PeerId, anyhow::Error>>>'),
         'dial_backoff_states': Sym('backoff', 'HashMap<PeerId, DialBackoffState>'),
         'pending_connections': Sym('pending_connections', 'JoinSet<ConnectingOutput>'),
@@ -133,7 +132,7 @@ def ob_eligibility(report):
 def ob_dial_loop(report):
     def body(ob):
         def m_dial_peer(ex, p, call, k):
-            p.events.append(Event('dial', 'dial_peer', call.args[1:], None, call.span, call.depth))
+            p.events.append(Event('dial', 'dial_peer', tuple(e2.flatten_args(call.args[1:])), None, call.span, call.depth))     # (address, id, sender), bundled in a struct or not
             k(p, UNIT)
 
         def m_channel(ex, p, call, k):
@@ -173,6 +172,26 @@ def ob_dial_loop(report):
         mx = _config_max(ex)
         plen = z3.BitVec('len(pending_connections)', 64)
         budget = z3.If(z3.UGE(mx, plen), mx - plen, z3.BitVecVal(0, 64))
+        # the oracle below is phrased over `known.values().filter(eligible)...take(budget)`: without a filter stage over the known-peer
+        # table (the selection was rewritten as an explicit loop building a vector) it cannot tell selection from dialing
+        def _filters_known(r):
+            for e in r.events:
+                if e.kind == 'next' and e.name == 'begin':
+                    it = e.args[0] if e.args else None
+                    for _ in range(6):
+                        if not (isinstance(it, Agg) and it.name == 'AIter'):
+                            break
+                        if any(getattr(st, 'variant', None) in ('filter', 'filter_map') for st in IT.parts(it)[2]):
+                            return True
+                        try:
+                            c = IT._coll(ex, r.path, it.fields[0])
+                        except Exception:
+                            break
+                        it = c.get_ov('collected') if isinstance(c, Sym) else None
+            return False
+        if res and not any(_filters_known(r) for r in res) and any(e.kind == 'dial' for r in res for e in r.events):
+            return ob.done([ex], 'inconclusive', 'the eligible peers are not selected by an Iterator::filter pipeline over the known-peer table '
+                           '(explicit loop?): selection and dialing cannot be told apart by this obligation', paths=len(res))
         for r in res:
             if r.tag == 'panic' and cmodels_poison(r):
                 continue
@@ -372,7 +391,7 @@ def ob_retain(report):
                 # success: backoff state of that peer removed (if any), entry dropped from pending
                 if not (z3.is_false(z3.simplify(ret)) if isinstance(ret, z3.ExprRef) else False):
                     return violation(ob, [ex], 'completed (successful) dial is kept in pending_dials', 'retain-success-kept', path_summary(r), len(outs))
-                bmap = ex2.read_loc(q, None, ('H', 'cm', 'ConnectionManager'), (('field', struct_fields(CM, 'ConnectionManager').index('dial_backoff_states'), ''),))
+                bmap = read_role(ex2, ex2.read_loc(q, None, ('H', 'cm', 'ConnectionManager'), ()), CM, 'ConnectionManager', 'dial_backoff_states')
                 pres = MD.map_present_expr(ex2, bmap, pid)
                 if not implied(ex2, q.pc, z3.Not(pres)):
                     return violation(ob, [ex], 'backoff state survives a successful dial', 'retain-success-backoff', path_summary(r), len(outs))
